@@ -7,11 +7,12 @@ use std::ops::{Deref, DerefMut};
 
 pub use std::sync::{Arc, LockResult, PoisonError, Weak};
 
-/// Mutex whose acquire is a scheduling point of the controlled runtime.  Never poisons: inside
-/// the checked scenarios no panic happens while an rs-store lock is held (effects and pool jobs
-/// run outside every lock), so the `Err` arm of `lock()` is unreachable there.
+/// Mutex whose acquire is a scheduling point of the controlled runtime.  Poisons like std's: a
+/// guard dropped by a panic that began while it was held marks the mutex, and every later
+/// `lock()` returns `Err` (with the guard inside).
 pub struct Mutex<T: ?Sized> {
     id: Cell<u32>,
+    poisoned: Cell<bool>,
     data: UnsafeCell<T>,
 }
 
@@ -22,7 +23,7 @@ const UNASSIGNED: u32 = u32::MAX;
 
 impl<T> Mutex<T> {
     pub fn new(t: T) -> Self {
-        Mutex { id: Cell::new(UNASSIGNED), data: UnsafeCell::new(t) }
+        Mutex { id: Cell::new(UNASSIGNED), poisoned: Cell::new(false), data: UnsafeCell::new(t) }
     }
     pub fn into_inner(self) -> LockResult<T> {
         Ok(self.data.into_inner())
@@ -41,13 +42,17 @@ impl<T: ?Sized> Mutex<T> {
 
     pub fn lock(&self) -> LockResult<MutexGuard<'_, T>> {
         let id = self.id();
-        if core::mutex_try_elided(id) {
-            return Ok(MutexGuard { m: self, id });
+        if !core::mutex_try_elided(id) {
+            // one scheduling point: resumed only when the mutex is free
+            core::sched_point(Wait::Mutex(id));
+            core::mutex_acquire(id);
         }
-        // one scheduling point: resumed only when the mutex is free
-        core::sched_point(Wait::Mutex(id));
-        core::mutex_acquire(id);
-        Ok(MutexGuard { m: self, id })
+        let g = MutexGuard { m: self, id, was_panicking: std::thread::panicking() };
+        if self.poisoned.get() {
+            Err(PoisonError::new(g))
+        } else {
+            Ok(g)
+        }
     }
 
     pub fn get_mut(&mut self) -> LockResult<&mut T> {
@@ -70,6 +75,7 @@ impl<T: ?Sized> std::fmt::Debug for Mutex<T> {
 pub struct MutexGuard<'a, T: ?Sized> {
     m: &'a Mutex<T>,
     id: u32,
+    was_panicking: bool,
 }
 
 impl<T: ?Sized> Deref for MutexGuard<'_, T> {
@@ -85,6 +91,9 @@ impl<T: ?Sized> DerefMut for MutexGuard<'_, T> {
 }
 impl<T: ?Sized> Drop for MutexGuard<'_, T> {
     fn drop(&mut self) {
+        if !self.was_panicking && std::thread::panicking() {
+            self.m.poisoned.set(true);
+        }
         core::mutex_release(self.id);
     }
 }
